@@ -19,7 +19,9 @@ def oracle_e2e(ctx: Ctx, case):
     spec, env, policy, interp = _build(case)
     T, E = case["T"], case["E"]
     lam = 1.0 if case["algo"] == "REINFORCE" else case["lam"]
-    algo = onpolicy.with_gamma(onpolicy.algo_template(case["algo"], E, T), case["gamma"], None if case["algo"] == "REINFORCE" else lam)
+    # lambda = 1 / 0 are the documented Monte-Carlo / TD limits and are naturally typed as ints
+    lam_arg = int(lam) if case.get("lam_int") and lam in (0.0, 1.0) else lam
+    algo = onpolicy.with_gamma(onpolicy.algo_template(case["algo"], E, T), case["gamma"], None if case["algo"] == "REINFORCE" else lam_arg)
     cb = StashCallback(("rollout_buffer",))
     state = onpolicy.reset_algo(algo, env, policy, jr.key(case["key"]), cb)
     state2 = onpolicy.iterate(algo, state, jr.key(case["key"] + 7), cb)
@@ -59,7 +61,7 @@ def oracle_e2e(ctx: Ctx, case):
         ctx.close(A[e], ref_adv, "C03/e2e/advantages-not-per-env-GAE", rtol=1e-9, atol=1e-9, tags={"algo": case["algo"]}, env=e, E=E)
         ctx.close(G[e], ref_ret, "C03/e2e/returns-not-per-env-GAE", rtol=1e-9, atol=1e-9, tags={"algo": case["algo"]}, env=e, E=E)
         inner |= bool(D[e][:-1].any())
-    ctx.count(nontrivial=inner and case["gamma"] * lam > 0, classes=[case["algo"], f"E={E}"], key=[case["algo"], E, T, D.tolist(), case["gamma"], lam])
+    ctx.count(nontrivial=inner and case["gamma"] * lam > 0, classes=[case["algo"], f"E={E}"] + ["int_lambda"] * isinstance(lam_arg, int), key=[case["algo"], E, T, D.tolist(), case["gamma"], lam])
 
 
 def run(ctx: Ctx):
@@ -67,4 +69,4 @@ def run(ctx: Ctx):
     if not ctx.quick:
         plan += [("disc-onehot", "A2C", 1, 16), ("box-vec2", "PPO", 3, 16), ("disc-id", "REINFORCE", 3, 5)]
     for config, algo, E, T in plan:
-        ctx.run_given("e2e", rollout_cases(config, T, "some", algos=(algo,), E=E), oracle_e2e, ctx.n(60, 800))
+        ctx.run_given("e2e", rollout_cases(config, T, "some", algos=(algo,), E=E).flatmap(lambda c: st.booleans().map(lambda b: {**c, "lam_int": b})), oracle_e2e, ctx.n(60, 800))
